@@ -3,11 +3,13 @@ import S3V.Thm.MultipartFile
 import S3V.Thm.MultipartSpec
 import S3V.Thm.MultipartParse
 import S3V.Thm.MultipartCompose
+import S3V.Props.C08
 /-!
 # C09 — results do not depend on how the request body is framed or when frames arrive
 
 Clauses (a) plain streamed bodies, (b) buffered bodies, (d) multipart/form-data.
-Clause (c) chunk-signed uploads: theorem `C09c_framing_independent` in `S3V/Props/C08.lean` (other worker).
+Clause (c) chunk-signed uploads: theorem `C09c_framing_independent` in `S3V/Props/C08.lean` (component
+`chunked`, other worker), restated below as `C09c_chunk_signed_framing_independent`.
 
 A transport body is a list of frames, `some bytes` or `none` (a transport error; nothing after it is
 read). Quantifier: every list of frames — every split point, empty frames, any number of frames — no
@@ -51,6 +53,19 @@ theorem C09b_buffered_framing_independent (declared : Option Nat) (fr₁ fr₂ :
     Body.extractFullBody declared fr₁ = Body.extractFullBody declared fr₂ := by
   apply Body.Full.toSpec_injective
   rw [C09b_buffered_depends_on_concat, C09b_buffered_depends_on_concat, hd, he]
+
+/-! ## (c) chunk-signed uploads — proved by the `chunked` component in `S3V/Props/C08.lean`; restated -/
+
+/-- clause (c): two framings of the same chunk-signed byte string give the same delivered bytes and the
+    same end, for every chunk-signature function (`S3V.C08.C09c_framing_independent`; the variant with
+    transport errors is `S3V.C08.C09c_framing_independent_faulty`) -/
+theorem C09c_chunk_signed_framing_independent (sig : Bytes → Bytes → Bytes) (seed : Bytes) (declared : Nat)
+    (fs₁ fs₂ : List Bytes) (h : fs₁.flatten = fs₂.flatten) :
+    (S3V.Chunked.decodeStream sig seed declared (fs₁.map S3V.Chunked.Frame.data)).delivered.flatten =
+      (S3V.Chunked.decodeStream sig seed declared (fs₂.map S3V.Chunked.Frame.data)).delivered.flatten ∧
+    (S3V.Chunked.decodeStream sig seed declared (fs₁.map S3V.Chunked.Frame.data)).terminal =
+      (S3V.Chunked.decodeStream sig seed declared (fs₂.map S3V.Chunked.Frame.data)).terminal :=
+  S3V.C08.C09c_framing_independent sig seed declared fs₁ fs₂ h
 
 /-! ## (d) multipart/form-data -/
 
